@@ -1346,6 +1346,83 @@ fn gen_raw_topn(r: &mut Rng) -> Phased {
     Phased { kind: "raw-top-n", query, phases }
 }
 
+/// Inputs whose EARLY rows hold a value much longer than anything in the final table, in a row that
+/// later leaves the table (top-N by count / by a sum / by key, raw `sort … | limit N`), while
+/// another column grows in the later phases.
+fn gen_stale(r: &mut Rng) -> Phased {
+    let n = 1 + r.below(3);
+    // (query, raw rows, ordered by key, second text column, rank by a sum)
+    let (query, raw, by_key, has_b, by_sum) = match r.below(9) {
+        0 | 1 => (format!("* | json | count by a, b | limit {}", n), false, false, true, false),
+        2 => (format!("* | json | count by a | limit {}", n), false, false, false, false),
+        3 => (format!("* | json | count as hits by a, b | sort by hits desc | limit {}", n), false, false, true, false),
+        4 => (format!("* | json | count by a | sort by a | limit {}", n), false, true, false, false),
+        5 => (format!("* | json | count by a, b | sort by a | limit {}", n), false, true, true, false),
+        6 => (format!("* | json | sort by n desc | limit {}", n), true, false, true, false),
+        7 => (format!("* | json | fields a, n | sort by n desc | limit {}", n), true, false, false, false),
+        _ => (format!("* | json | sum(n) as bytes, count by a | sort by bytes desc | limit {}", n), false, false, false, true),
+    };
+    let nphases = 2 + r.below(3);
+    let long_phases = if nphases >= 3 && r.chance(40) { 2 } else { 1 };
+    let late_phases = nphases - long_phases;
+    // mostly enough late groups to push every early one out of the N rows
+    let displace = r.chance(85);
+    let per_late = if displace { (n + late_phases - 1) / late_phases + r.below(2) } else { 1 };
+    let mut b_len = 8 + r.below(30);
+    let mut used = std::collections::BTreeSet::new();
+    let mut taken = std::collections::BTreeSet::new();
+    let mut top = 0usize;
+    let mut phases = vec![];
+    for p in 0..nphases {
+        let early = p < long_phases;
+        let mut rows: Vec<String> = vec![];
+        let groups = if early { 1 + r.below(n + 1) } else { per_late };
+        if !early {
+            b_len = (b_len + grow_step(r)).min(70);
+        }
+        for _ in 0..groups {
+            let rank = if by_key {
+                // late keys sort above the early ones
+                if early {
+                    (b'p' + r.below(10) as u8) as char
+                } else {
+                    (b'o' - 3 * (p as u8) - r.below(4) as u8) as char
+                }
+            } else {
+                letter(r)
+            };
+            let a_len = if early { 30 + r.below(81) } else { 2 + r.below(45) };
+            let a = key_text(r, rank, a_len, &mut used);
+            let b: String = (0..if early { 1 + r.below(4) } else { b_len.saturating_sub(r.below(3)) }).map(|_| letter(r)).collect();
+            // the sort key of raw rows / the summand: later phases are larger
+            let digits = if early { 1 + r.below(3) } else { 6 + 2 * p + r.below(4) };
+            let mut v = if by_sum { with_digits(r, digits) } else { 1000 * p as i64 + r.range(1, 999) };
+            while !taken.insert(v) {
+                v += 1;
+            }
+            let copies = if raw {
+                1
+            } else if by_key || by_sum {
+                1 + r.below(3)
+            } else if early {
+                1 + r.below(3)
+            } else {
+                (top + 1 + r.below(2)).min(30)
+            };
+            if !early || !(by_key || by_sum || raw) {
+                top = top.max(copies);
+            }
+            for _ in 0..copies {
+                let nv = if by_sum || raw { v } else { r.range(1, 900) };
+                rows.push(if has_b || raw { format!("{{\"a\":\"{}\",\"b\":\"{}\",\"n\":{}}}", a, b, nv) } else { format!("{{\"a\":\"{}\",\"n\":{}}}", a, nv) });
+            }
+        }
+        r.shuffle(&mut rows);
+        phases.push(rows);
+    }
+    Phased { kind: "long-value-leaves-the-table", query, phases }
+}
+
 fn gen_phased(r: &mut Rng) -> Phased {
     match r.below(10) {
         0..=3 => gen_topn(r),
@@ -1436,8 +1513,8 @@ struct PhasedRun {
 
 /// generate a phased input, compute the non-terminal table of every prefix and a terminal wide
 /// enough for all of them.  None: reported (harness problem / unmodelled).
-fn prepare_phased(ctx: &mut Ctx, family: &str, key: &str, r: &mut Rng) -> Option<PhasedRun> {
-    let case = gen_phased(r);
+fn prepare_phased(ctx: &mut Ctx, family: &str, key: &str, r: &mut Rng, stale: bool) -> Option<PhasedRun> {
+    let case = if stale { gen_stale(r) } else { gen_phased(r) };
     let mut input = vec![];
     let mut phase_ends = vec![];
     let mut phase_lines = vec![];
@@ -1470,6 +1547,20 @@ fn prepare_phased(ctx: &mut Ctx, family: &str, key: &str, r: &mut Rng) -> Option
         }
         prefix_tables.push(String::from_utf8_lossy(&p.bytes).into_owned());
     }
+    if stale {
+        // only as wide as the FINAL table needs (its rule is as long as the sum of the column
+        // widths measured on that table alone) plus 0…6: earlier tables held much longer values
+        let need = match table_width(prefix_tables.last().map(|s| s.as_str()).unwrap_or("")) {
+            Some(n) => n,
+            None => {
+                ctx.case(family, "", "skip", serde_json::json!({"why": "the final table is empty", "query": case.query, "input_hex": enc::hexb(&input)}));
+                return None;
+            }
+        };
+        let w = (need + r.below(7)).min(250) as u16;
+        let h = if r.chance(85) { 14 + r.below(30) as u16 } else { 3 + r.below(6) as u16 };
+        return Some(PhasedRun { case, input, phase_ends, phase_lines, prefix_tables, w, h, need });
+    }
     let need = match width_needed(&prefix_tables) {
         Some(n) if n <= 230 => n,
         other => {
@@ -1484,6 +1575,26 @@ fn prepare_phased(ctx: &mut Ctx, family: &str, key: &str, r: &mut Rng) -> Option
     Some(PhasedRun { case, input, phase_ends, phase_lines, prefix_tables, w, h, need })
 }
 
+/// the columns a non-terminal table takes: the length of the rule under its header (None: `No data`)
+fn table_width(table: &str) -> Option<usize> {
+    let rule = table.lines().nth(1)?;
+    if rule.is_empty() || !rule.chars().all(|c| c == '-') {
+        return None;
+    }
+    Some(rule.chars().count())
+}
+
+/// A frame showing `table` on a terminal of `w` columns: where the table fits the terminal (its
+/// non-terminal form is not wider) every cell must be shown in full — `strict_frame_vs_plain`;
+/// where it does not, cells may be cut (how is C19's matter) — `frame_vs_plain`.  None = fine.
+fn frame_vs_table(frame: &str, table: &str, w: u16, h: u16) -> Option<String> {
+    if table_width(table).map_or(true, |n| n <= w as usize) {
+        strict_frame_vs_plain(frame, table, h)
+    } else {
+        frame_vs_plain(frame, table, w, h, true)
+    }
+}
+
 /// how long the idle display may take to show everything received (the refresh interval is 50 ms;
 /// the bound only has to tell "late on a loaded machine" from "never")
 const PHASED_CATCH_UP_MS: u64 = 8000;
@@ -1493,11 +1604,15 @@ const PHASED_CATCH_UP_MS: u64 = 8000;
 /// screen has caught up it must show — strictly, no cut cells: the terminal is wide enough for
 /// every column at its widest — the table a non-terminal run prints for everything released so
 /// far; after end of input the final screen must be exactly the final table.
-fn phased_growth_live(ctx: &mut Ctx, idx: usize, r: &mut Rng) {
+///
+/// `stale` (family `stale-width`): the terminal is only as wide as the FINAL table needs while
+/// earlier tables held much longer values; frames are judged strictly exactly where their own
+/// table fits the terminal.
+fn phased_growth_live(ctx: &mut Ctx, idx: usize, r: &mut Rng, stale: bool) {
     use super::c15::Gate;
-    let family = "phased-cell-growth";
+    let family = if stale { "stale-width" } else { "phased-cell-growth" };
     let key = format!("{}:{}", family, idx);
-    let run = match prepare_phased(ctx, family, &key, r) {
+    let run = match prepare_phased(ctx, family, &key, r, stale) {
         Some(x) => x,
         None => return,
     };
@@ -1576,7 +1691,7 @@ fn phased_growth_live(ctx: &mut Ctx, idx: usize, r: &mut Rng) {
                 format!("after phase {} ({} lines released in all) and {} ms of idle input the screen does not show the table of all lines received", p, run.phase_lines[p], idle_ms[p] + PHASED_CATCH_UP_MS),
             ))
         } else {
-            strict_frame_vs_plain(last_seen.as_deref().unwrap_or(""), plain_text, h).map(|what| ("C16/idle-frame-differs", format!("input idle after phase {} of {} ({} lines released): {}", p, nph, run.phase_lines[p], what)))
+            frame_vs_table(last_seen.as_deref().unwrap_or(""), plain_text, w, h).map(|what| ("C16/idle-frame-differs", format!("input idle after phase {} of {} ({} lines released): {}", p, nph, run.phase_lines[p], what)))
         };
         if let Some((class, what)) = bad {
             gate.eof();
@@ -1595,6 +1710,11 @@ fn phased_growth_live(ctx: &mut Ctx, idx: usize, r: &mut Rng) {
     };
     if !compiled || imp::PANICS.load(Ordering::SeqCst) != panics_before {
         let p = imp::LAST_PANIC.lock().map(|g| g.clone()).unwrap_or_default();
+        if stale && c19::panic_class(&p) != "C19/panic-other" {
+            // (a terminal narrower than an earlier table: the printer's own panics are judged by C19)
+            ctx.case(family, "", "skip", serde_json::json!({"why": format!("printer panicked: {} (judged by C19)", c19::panic_class(&p)), "case": info}));
+            return;
+        }
         ctx.case(family, &key, "viol", serde_json::json!({"class": "C16/panic", "what": format!("the terminal run panicked or the query did not compile: {}", c19::clip(&p, 200)), "case": info}));
         return;
     }
@@ -1613,7 +1733,7 @@ fn phased_growth_live(ctx: &mut Ctx, idx: usize, r: &mut Rng) {
     }
     let last = frames.last().cloned().unwrap_or_default();
     let plain_text = run.prefix_tables.last().cloned().unwrap_or_default();
-    if let Some(what) = strict_frame_vs_plain(&last, &plain_text, h) {
+    if let Some(what) = frame_vs_table(&last, &plain_text, w, h) {
         ctx.case(family, &key, "viol", serde_json::json!({"class": "C16/final-frame-differs", "what": what, "final_frame": last, "non_tty": c19::clip(&plain_text, 2000), "case": info}));
         return;
     }
@@ -1625,10 +1745,11 @@ fn phased_growth_live(ctx: &mut Ctx, idx: usize, r: &mut Rng) {
 /// pseudo-random subset of the rows and idle ticks; pauses at the phase boundaries): every frame
 /// must be — strictly — the table of some prefix of the input, prefixes never going back, the
 /// final frame the table of all rows, and the final screen exactly that frame.
-fn phased_growth_scripted(ctx: &mut Ctx, idx: usize, r: &mut Rng) {
-    let family = "phased-cell-growth-scripted";
+/// (`stale`, family `stale-width-scripted`: see `phased_growth_live`.)
+fn phased_growth_scripted(ctx: &mut Ctx, idx: usize, r: &mut Rng, stale: bool) {
+    let family = if stale { "stale-width-scripted" } else { "phased-cell-growth-scripted" };
     let key = format!("{}:{}", family, idx);
-    let run = match prepare_phased(ctx, family, &key, r) {
+    let run = match prepare_phased(ctx, family, &key, r, stale) {
         Some(x) => x,
         None => return,
     };
@@ -1650,6 +1771,10 @@ fn phased_growth_scripted(ctx: &mut Ctx, idx: usize, r: &mut Rng) {
         return;
     }
     if let Some(p) = &tty.panicked {
+        if stale && c19::panic_class(p) != "C19/panic-other" {
+            ctx.case(family, "", "skip", serde_json::json!({"why": format!("printer panicked: {} (judged by C19)", c19::panic_class(p)), "case": info}));
+            return;
+        }
         ctx.case(family, &key, "viol", serde_json::json!({"class": "C16/panic", "what": format!("terminal run panicked: {}", c19::clip(p, 200)), "case": info}));
         return;
     }
@@ -1660,7 +1785,7 @@ fn phased_growth_scripted(ctx: &mut Ctx, idx: usize, r: &mut Rng) {
     for (fi, f) in frames.iter().enumerate() {
         let last = fi + 1 == frames.len();
         let from = if last { nlines } else { at };
-        match (from..=nlines).find(|k| strict_frame_vs_plain(f, &run.prefix_tables[*k], h).is_none()) {
+        match (from..=nlines).find(|k| frame_vs_table(f, &run.prefix_tables[*k], w, h).is_none()) {
             Some(k) => at = k,
             None => {
                 let class = if last { "C16/final-frame-differs" } else { "C16/frame-is-no-prefix-table" };
@@ -1672,7 +1797,7 @@ fn phased_growth_scripted(ctx: &mut Ctx, idx: usize, r: &mut Rng) {
                     "viol",
                     serde_json::json!({"class": class,
                         "what": format!("frame {} of {} is not the table of {}: {}", fi, frames.len(), if last { "all rows".to_string() } else { format!("any prefix of ≥ {} lines", at) },
-                            strict_frame_vs_plain(f, &run.prefix_tables[lenient], h).unwrap_or_default()),
+                            frame_vs_table(f, &run.prefix_tables[lenient], w, h).unwrap_or_default()),
                         "frame": f, "expected_table": run.prefix_tables[lenient], "case": info}),
                 );
                 return;
@@ -2081,15 +2206,26 @@ pub fn check(ctx: &mut Ctx) {
     }
     // phased inputs whose cells grow/shrink while the table keeps its shape: scripted refreshes …
     // (AGVERIF_C16_NO_SCRIPTED=1: leave them out, to see what the real-clock family finds on its own)
-    let n8 = if std::env::var("AGVERIF_C16_NO_SCRIPTED").is_ok() { 0 } else { ctx.budget(240, 3200) };
+    let n8 = if std::env::var("AGVERIF_C16_NO_SCRIPTED").is_ok() { 0 } else { ctx.budget(170, 3200) };
     for i in 0..n8 {
         let mut r = ctx.rng.fork();
-        phased_growth_scripted(ctx, ctx.shard * 1_000_000 + 950_000 + i, &mut r);
+        phased_growth_scripted(ctx, ctx.shard * 1_000_000 + 950_000 + i, &mut r, false);
     }
     // … and the real clock with idle periods between the phases
     let n9 = ctx.budget(48, 480);
     for i in 0..n9 {
         let mut r = ctx.rng.fork();
-        phased_growth_live(ctx, ctx.shard * 1_000_000 + 970_000 + i, &mut r);
+        phased_growth_live(ctx, ctx.shard * 1_000_000 + 970_000 + i, &mut r, false);
+    }
+    // a terminal only as wide as the FINAL table needs, after earlier tables with much longer values
+    let n10 = if std::env::var("AGVERIF_C16_NO_SCRIPTED").is_ok() { 0 } else { ctx.budget(170, 3200) };
+    for i in 0..n10 {
+        let mut r = ctx.rng.fork();
+        phased_growth_scripted(ctx, ctx.shard * 1_000_000 + 980_000 + i, &mut r, true);
+    }
+    let n11 = ctx.budget(32, 320);
+    for i in 0..n11 {
+        let mut r = ctx.rng.fork();
+        phased_growth_live(ctx, ctx.shard * 1_000_000 + 990_000 + i, &mut r, true);
     }
 }
